@@ -185,6 +185,7 @@ class AdapterModel:
                 self.guards.setdefault(sb, {})[tgt] = (tgt == pull)
         # tail tests: switch on Option::is_none / is_some of the stream field
         self.tails = {}
+        self.tail_sites = {}
         for sb in range(b.n):
             for tgt, labs in fl.edge_labels(sb).items():
                 for lab in labs:
@@ -193,6 +194,7 @@ class AdapterModel:
                         if ".stream" in arg:
                             gone = lab[2] if lab[1][1].endswith("is_none") else (not lab[2])
                             self.tails.setdefault(sb, {})[tgt] = gone
+                            self.tail_sites[sb] = lab[1][3]        # where the probe was EVALUATED (it may be tested much later)
 
     def _guard_var_is_fresh(self, local, sb):
         """The guard is a bool local tested at block sb: between each of its definitions and the test nothing pushes into or
@@ -331,13 +333,19 @@ class AdapterModel:
 
         self._window_end = window_end
 
+        pos = []          # path position each event speaks about (a probe kept in a flag speaks about where it was evaluated)
         for i, bb in enumerate(path):
+            pos.extend([i] * (len(ev) - len(pos)))
             t = b.term(bb)
             nxt = path[i + 1] if i + 1 < n else None
             if bb in self.guards and nxt in self.guards[bb]:
                 ev.append(("G", self.guards[bb][nxt], bb))
             if bb in self.tails and nxt in self.tails[bb]:
+                site = self.tail_sites.get(bb)
+                at = max([j for j in range(i + 1) if path[j] == site] or [i])
+                pos.extend([i] * (len(ev) - len(pos)))
                 ev.append(("T", self.tails[bb][nxt], bb))
+                pos.append(at)
             if t["k"] == "switch" and nxt is not None:
                 # as_pin_mut None arm
                 for labs in [self.fl.edge_labels(bb).get(nxt, [])]:
@@ -386,6 +394,30 @@ class AdapterModel:
                             out = self._classify_moved(path, know, path.index(brb, i), bdest)
                 if out is None:
                     out = classify_poll(dest, later_know(i, dest))
+                if out == "Some":
+                    # the item (a Result for the try-adapters) may be moved out before its variant is looked at (`admit(queue,
+                    # item)?` with `item.map(..)` inside): an item found to be Err further along this path is an upstream error
+                    payload = "((%s as Ready).0 as Some).0" % dest
+                    holders = set()
+                    in_agg = set()       # (aggregate local, operand position) holding the item (the argument tuple of a closure call)
+                    end_ = window_end(i)
+                    for j in range(i, end_):
+                        for s_ in b.stmts(path[j]):
+                            if s_["k"] != "assign" or s_["place"]["p"]:
+                                continue
+                            if s_["rv"]["k"] == "use" and s_["rv"]["op"]["k"] in ("move", "copy"):
+                                src_ = s_["rv"]["op"]["place"]
+                                if place_str(src_) == payload or (not src_["p"] and ("_%d" % src_["l"]) in holders):
+                                    holders.add("_%d" % s_["place"]["l"])
+                                elif len(src_["p"]) == 1 and src_["p"][0]["k"] == "field" and (src_["l"], src_["p"][0]["i"]) in in_agg:
+                                    holders.add("_%d" % s_["place"]["l"])
+                            elif s_["rv"]["k"] == "aggregate":
+                                for k_, o_ in enumerate(s_["rv"]["ops"]):
+                                    if o_["k"] in ("move", "copy") and not o_["place"]["p"] and ("_%d" % o_["place"]["l"]) in holders:
+                                        in_agg.add((s_["place"]["l"], k_))
+                        if holders and any(know[j].get(h_) == "Err" for h_ in holders):
+                            out = "Err"
+                            break
                 ev.append(("U", out, bb))
             if bb in self.setnone:
                 ev.append(("SETNONE", bb))
@@ -399,6 +431,10 @@ class AdapterModel:
                 if out is None or out == "Ready?":
                     out = self._classify_moved(path, know, i, dest, direct=True) or out
                 ev.append(("I", out, bb))
+        pos.extend([n] * (len(ev) - len(pos)))
+        if any(pos[k] > pos[k + 1] for k in range(len(pos) - 1)):
+            order = sorted(range(len(ev)), key=lambda k: (pos[k], k))
+            ev = [ev[k] for k in order]
         ev.append(("RET", self._ret_kind(path, know, ev)))
         return ev
 
